@@ -17,14 +17,13 @@ var rsaPoolDER = []string{
 	"MIICWwIBAAKBgQCo3++ij/sdt/Vheh6IxqRDaIG6gWvrjItEimo+fZvDh+ax8HrNJ2ps0yryRTcTBSwG4MIav3Kqdzhs6Y105wKDOtRjIx4kOxGavmJXrBIPNF0vuQEa0Zv8kOuMrfe2ITFt2wNPk7dfhSd88tpGO+M40AHXFzsGS74cg8ThJdZSgwIDAQABAoGAFRVQH6WGHmG3GuJaKY1TOK81cwlxZcj4Iih9tyuLZM/0t0ZkrnQ7TzbV58VIaPF+W6V31ksMj8eunbpS1MN6hp/GWFgDXFK7eJuaKgD0dT7Xw8MWFE9OVRsLX4mMcOSIyq2IDt6ftnYu42YNgabcSAfu6oJBk1Dvv1a0kNbLLPECQQDL9ipWAErmRdC9aelS0dqHucDAk9UFvRGdFgiKzUeJwjSdEj+jkyioSKgDKVqvFRBgtvbMhSsxmUd2edJz9/etAkEA0/YPTUhD5Vqb6fsSU4q6XAInu1t1D47uqfqbEvWKiF0J3Iy9YOLJu5miqHNqsZoxEEWbG7Z+uS4FuOFxVdF47wJAdmlT6toAoe+mYFE8xHhRBrswzJ0G7230693+15aWEcROB2Kwz6Z/1DNaV3uKylrQR1XxsosdqI30jzPqmqk7gQJAMdvXjZ5KGlFOC6P7k5s2ax42qmPBDX/ZtDI2+Ca6B4mbID4a7gdq3K4vDODZYB2dHO7Cpaov9O9WeT7Oohk8EQJAc0M3mm23l3tbI6hIpurkkLYugefFSz/8BwQHMf4b576l0Dilg/3/DSM61+KkMtwsiZoNcndlN/+HU3OGT5rZ/A==",
 }
 
-
 // Keys at the bounds of what the library (and RFC 3110) supports: a 512-octet modulus, one- and
-// four-octet public exponents, and an in-between size. They are expensive to use (the 4096-bit
+// four-octet public exponents (the latter the maximum, 2^31-1), and an in-between size. They are expensive to use (the 4096-bit
 // one above all), so cases pick them explicitly and rarely: RSAKey(RSAEdgeBase + i).
 var rsaEdgeDER = []string{
 	"MIIJKQIBAAKCAgEArlj4xZiTaDRogQJjLHTVfxWulf3tIgTBiE1D+XyItg/rQToDuHasWvEGohmoXX2oJ2mSLU7hQxe+jpUYR0SYJ0XgTJqPvQQS/3LpZz1eeJtfAORaGh09kIb29/+vt6BO/Vv38f7uBSSIUWjCQqoWMJcALVoKlOPdMZBn3YoEFTCwYRKaR3e3RuQMfR7g2hbww1zcw69Kqc/BuOYKeo+X1A3ypvQ2SnVGYRV+BKpam1BPqLeIHwp+tm28BZsojfij7CaOmMDvuEKNsDA9F0fhbF4o7eI1vcQjvJs1LdaEAsCrCPAfokhypCOASVdh15map1wmdbHjyk1exblcDQ/0gu8devbAMvyOhjDm/JWYfvi85WBBE0xUqCoXrw9ghQRpWfKgrbTpIGqWANmW6WDWYbzyqpmvcFyBMJs4VSbiHdsjDVBcafMjj49GzFuSup9z4Aq6Q8uHKZ5k9MXeANWwzu5r+YRAcmQf61EdYVdRQSW9yP0ORKzozU2VNmKLRUm1re5Nf2CAuNttlDfDur/017T00RqrD071YAmzNPDO3Q60q0QLSW/tg/lRqnGMhoUxWEniTzlX7a3202inSCmigABr5q4ee9oTQGlGeQQPy4QWKATZu3Y9jV+oO+pt5ZTr+4hDxGSd8+xAQY9S8+hVOD/y5Et4OKXMTr908paZTI8CAwEAAQKCAgAs2Iro/LWR/MUSxiPvaAAQp+mYAFBySyni3wkIkA10U0TuqrcRSElOPSg5IwNpROyvcprcl6kewmlMMLKlhlHi7DjlS26ErpsaZRr/aMw3lrOJvbMle3b+CZFWOkkfIRegWPs+npXn8b00v48Uab66ceTkRYBqSvB3Es98r0cckkEUPx47GuKkU/2YY4xv3K3Cesz4csrwQhXw8w8n9m6V556ObkvWvDLFvysClTUoNTDAU7EqVt9AGpreEEqOtjGoCUTtqtcenNPoSYg1SFKGNvQtOF4deWm91miH6WFceeWkr2tbqWn/qXgSpWzv8b1TpkLoTEEtJNinYGX6oCuC42tUmT1eGM6Gj2FrOFh4lYY5UHjww/O9ExeyOp2UrLO28NnxHlzL+L7ZXMA+wBvIpt13X0uSyN7ublNqFyQliRi/3Ubng79FusK+4/h4eImx7UfwKAGJnQMFRvpG2gmanBL8SIh0ZaC8TyOoFj8xbCHu+H8C+/NQBhEJd1lcdYdgTLok59QlGZaBVxgBajy6trb23kVlIu7wOKGMfzcr9xeZ/beVMC+kwHEmux3lgnYCd+UA0Z6H2KCEVf6T+GwEutnkiXMMmpRNjGLjl+ez7Gxfj9J8LlppshXbSIEdTMO33QG5LCjw8AxFC7CzHlTZRBjob1c7xb2+EZWh7lIWIQKCAQEA5KRV8IjwUGJk/yvl3LkzFyK7BUOJPBUtQItrsXsicRvAKuSlsB2LJu5P0OABVSwE+T+bqcb4y5KqzbBT+4ZT+bisyiO/4VBfluAHbkupqXetw1bFxIoM3lpRKEX4w93AKer8zKHZYChOG/j0B822i6zsgMS2QaI5YwmodgfIC1nOrlVNwCuHSfESWWwEv9NTp97/btMmlON5omADb1uRmea9FXA5jnABrgvcXH5RrzWw3/ychCAueb1wxHuQYmLa8KqBxWE4Cmv4a4LQP7pRvvLNljNUdVay0Yu+Dc/nWxb1CL9dRynJxlT3N5bnkziIFt5T1Y5bl1OFUSwBXFPFoQKCAQEAwzWDUkic8ZvqrXHh7mKek8yOMY8MkSfAXGleP8MXJEOPfZj/VdJzIA++xLOqBxYampa9f2MpfsIdJsJ47xDpJxPY3cXYYo6+cDpXB3u9fYDojubxvSDKT8LN7JVqHTEiKkefr9NPTvRMAHB7tWDJEKI4osyyRDZlur0B6szbNZlXKl48JpPKuXB/BQYlatlj3W+i1W00id44JE/nVShRcXRx5s/tJWXGJPHDLK7jiBPz7DuIzMgD+sMQMCZvA5dATbpnFUlXQUj1UqASJYNRTBHhwLUeHsV9NMFgfnMYYsYMyCDY87SVKjS+hlRWZQr09FQl6Tgbtv/irDnerbGELwKCAQEArr2l7KJLv7Ojap17HJjyIgFqG5jE/oVUw1qKoObxqK5DzMRYmOPLYKKLn6BDhHuTBYcGidfGd5cNMQxM8xNzhIwOiqKN2D5b/+wR4cqzzQ/pXjwoA5BaS2mNUxE/ETqdzauJLz+W6XWEVL6MipY+qDstuTAd9sVrxHQyKprB2WL2oagSNwdNa0Zx9qOmcZCqA8dbQrDfcLT1VhK5LVc3TP7ajdLqOiECN6la7dmgxh5ropPmbthFjMcqsw+Yhoj0uTAm49nsQZLJFimwzLOyHBRm6R8rsk3jdmCtjNLTB3vhI6FVQbj/O7PeCL8tFwgCgi/CtJkLCPlND39pPs3LYQKCAQEAj3DaD3OWB5/XYR3ms8G53scX0WjZBiycmAtBGz9i2N3gKZ1sOocK24tWVbnjfZOLdv6/PkUCb8d5nkqWjKzzdiiKWeQQbdOQMm1cF/6gLgG0YZVoGt5maxetM2RTdiHthf3dZFi01UKEOmptLMly1YsubMpXT/Jc7EwIhZ2Ekq0btOFL99jvxTXZ0DpE8m/NhyCKGaRGT+x/eodQaG3Y8rJrI/yzuKBBalJQZZwZS5vFyFey3S84ZWJCme8T8iKJONR4/NZIjIts4QsIapJFAc2+AlnUSS47I7HZEvHGAIahS8l/Qgz28u2Q9qowVc0oVAUlWmtFSkJbMMzRSPbBNwKCAQBfp0BO7Hw10Ml6wge9Q2yfG2ioFKA1bfcpzZ9Ax81tUarGdScwhtXDpFeq4DynVb8F/Jr1qPzs9tQGJ1wMVaEG9ort3e7x+m24yStl6gOsKpfLEJYvVWY8yc7GIhxemEKauKcGDUhXuVMDJU4hSjudfEPjIhW5gwhDhcbKlq9m8JvcrwVKrqtnyx6EHKl62ovjatht9WkR7bKhi3G+yeAYd1mwj6R7LQppsqDueVslWntjeJ6VJtApPwH0oE5son8NEUCZIL/wrzkTZujB9NYIve4K/2KUsYTurDCkAabBkWfBtwsGhG3WRU1tkoPFdO6g5Pn4la00Y4ilFGYSnT1h", // 4096 bits, e=65537 (modulus of 512 octets: the largest the library accepts)
-	"MIIEpAIBAAKCAQEAw4QorCHFTr/WhuKifCqJFbEhQWoI+yVpHcfHUYpTeHsFtvGUU4CaHeDTftz7Gam+XDmGJQs5T1McIEJlllw3EVDQrPsmW8gz2iiwIQoQxeNZ47/0M2eHGZBqHV9cTMBfMYSSw30Krb36/dhmzOFL/Ta4bIYCnm1RZZj5xQBJXIfrUVNvZiHIvyB5tNpySgLcDo+KYhi2UTLqMYcW8RxXNiVbdjivFBN61nPVZ8ALZIJJm6rUb+scl6jmpKwvkElvSCnBgwSP1w6eyDQL0NL0tJHKKkZ58bjt+CdwuFKjDfmURKdKVi8/zVK6wNahLpaTV0jkRvBje9fubE4ogacGNQIBAwKCAQEAglgbHWvY3yqPBJcW/XGwuSDA1kawp25GE9qE4QbiUFIDz0u4N6sRaUCM/z38u8Z+6CZZbgd7ijdoFYGZDugktjXgc1IZkoV35sXKwLFgg+zml9VNd5paEQrxaOo9iIA/dlhh16ixySlR/pBEiJYyqM8lna6saZ42Q7tRLgAw6FlyALnWmpGpzf7+4Voz/wyWw1fdK7js9Rzb893pn+C6fVLfw11uTuga32MzxlZJ4wRcPSD3f7RicWR7EN6KosxfFEoqsthkM38i2wWwzGMrkwiVbl7dUPg0yc7xO/oaPPBGYx/+9PYYtyo6jwkjYl43O0FA9znIvo6T9vcA0Wt68wKBgQDSOceUaaJ7VItTSI1o+S8JRLeqyyKS80K6coMb6thBzwnF/78HYki7+qlYRV/aSrE+0J8X8CANpOZFWQTCubCAzMNfqirXVJ51dgVdUoh0P86g5ukNX11riqDIXppzbGIofXSsS47bpJDPsMJZwfKWxXGkLV1QH5Gnwsq8qPd2/wKBgQDuFnUZFKTOtZaoGkW7UkDwpNQT1WC/7kTl0TcclnL9qx9F0W2CO26WjLWveN7CRUqAb1pJQDx7SKvoslmc4mZf3PchzJUiNTF1CaYlS7W/GDZJHc8gmOczPtA+f8EIRi8CMoKfmy8/FgKTOYaSWRapuPVeprxmPnBotxDqno5WywKBgQCMJoUNm8GnjbI3hbObUMoGLc/HMhcMoix8TFdn8eWBNLEuqn9aQYXSpxuQLj/m3HYp4GoP9Wqzw0QuO1iB0SBV3deVHByPjb74+Vjo4bBNf98V70YI6j5HscCFlGb3nZbFqPhy3Qnnwws1IIGRK/cPLkvCyOjgFQvFLIcocKT5/wKBgQCeuaNmDcM0eQ8avC584YCgbeK345XVSYND4M9oZEypHL+D4POsJ58PCHkfpenW2NxVn5GGKtL82x1FzDu97EQ/6KTBMw4WziD4sRluMnkqECQwvooVu0TM1IrUVSta2XSsIaxqZ3TUuVcM0QRhkLnGe04/GdLu1ErwegtHFF7khwKBgQCyQceUc5UTNUBqhfhgF3L3tSYwbaIB8fso/0yQIsUNaTG1qR1w2U87BUgN63tDKdduYof2quHzgZIuYmE5r0r+hIXSasTW5W2EDFyaVDjGMK6RMj6pk5ospl77MxhozycN0eXLIWbwRbPV0m/XjwX82QanVuRS3Ks27rhiveaGkg==", // 2048 bits, e=3 (exponent of one octet)
-	"MIICXwIBAAKBgQDNV68DzYsy5OiIco6GmnD3H3JLnIgvB5YhIs2UonbxbRTfYq+WEmYB5+XkWi345+0LejX/Xln2OO5Nz0pOceE7DiwEw6JbvJs9OtUfYsaHndvDlp/tn6ic9JpsRszk+dQLI+4aNdSeS5JnYyDfhQftgT/6kLOqigJjS53HNqy8lwIEQAAAAwKBgQCiZHoNMkYLwXMOWJW3uWFwDDEJP756iqgaXsGO3CVhI+0+GSgN4EoWDzm9O2A0o8mBb5Vwp6Vywy/1Kgru1xmuF8Y9L3E8ZsxUj2+9xhiRWMP3TLSAThbMQWBk0tFP+ayso/rdb9XAeC2x5S6Iluu3yPW+B60kSdQ+Z7xq5JZVqwJBAPu8tf5IsbYpW0Bjk2nbL3FHDyNZxPUNtCEi+MPxj6zKau1rQBX8xnrvukJ5y7sH7B3VY98c3YtRfN+y6uUWcoECQQDQ0dm0qcCULiUN511FBKVO0Th2ILFBW8UKWOuSpDdYaeMosR5kV334HmiNnm3F5ZmxOXT9C64uY68OMtpm+PMXAkBf2iZJmbuXYhl/EIVpvOi/TulDGE4cqpzKYyeEWi5MiXJbnGrNGJJy9Re30vg5akxrdbzai08zI38vUAjbUKYrAkEAurfxtJ3c5o29v/i9excfh5oGZr9jWS7EysfnKB8fsshRzlOnVGwoW8hWFt/CDFXKhbCzedIqv8BAt+5YGOoR4QJBAOvMCiY1tz98wSHHug2RTtie4vbLmmcxuofWl29VAmiUYb/CjlufsUf1EKOnzMhykqa1hj8HZ9qMoPUmxdwdeOM=", // 1024 bits, e=0x40000003 (exponent of four octets)
+	"MIIEpAIBAAKCAQEAw4QorCHFTr/WhuKifCqJFbEhQWoI+yVpHcfHUYpTeHsFtvGUU4CaHeDTftz7Gam+XDmGJQs5T1McIEJlllw3EVDQrPsmW8gz2iiwIQoQxeNZ47/0M2eHGZBqHV9cTMBfMYSSw30Krb36/dhmzOFL/Ta4bIYCnm1RZZj5xQBJXIfrUVNvZiHIvyB5tNpySgLcDo+KYhi2UTLqMYcW8RxXNiVbdjivFBN61nPVZ8ALZIJJm6rUb+scl6jmpKwvkElvSCnBgwSP1w6eyDQL0NL0tJHKKkZ58bjt+CdwuFKjDfmURKdKVi8/zVK6wNahLpaTV0jkRvBje9fubE4ogacGNQIBAwKCAQEAglgbHWvY3yqPBJcW/XGwuSDA1kawp25GE9qE4QbiUFIDz0u4N6sRaUCM/z38u8Z+6CZZbgd7ijdoFYGZDugktjXgc1IZkoV35sXKwLFgg+zml9VNd5paEQrxaOo9iIA/dlhh16ixySlR/pBEiJYyqM8lna6saZ42Q7tRLgAw6FlyALnWmpGpzf7+4Voz/wyWw1fdK7js9Rzb893pn+C6fVLfw11uTuga32MzxlZJ4wRcPSD3f7RicWR7EN6KosxfFEoqsthkM38i2wWwzGMrkwiVbl7dUPg0yc7xO/oaPPBGYx/+9PYYtyo6jwkjYl43O0FA9znIvo6T9vcA0Wt68wKBgQDSOceUaaJ7VItTSI1o+S8JRLeqyyKS80K6coMb6thBzwnF/78HYki7+qlYRV/aSrE+0J8X8CANpOZFWQTCubCAzMNfqirXVJ51dgVdUoh0P86g5ukNX11riqDIXppzbGIofXSsS47bpJDPsMJZwfKWxXGkLV1QH5Gnwsq8qPd2/wKBgQDuFnUZFKTOtZaoGkW7UkDwpNQT1WC/7kTl0TcclnL9qx9F0W2CO26WjLWveN7CRUqAb1pJQDx7SKvoslmc4mZf3PchzJUiNTF1CaYlS7W/GDZJHc8gmOczPtA+f8EIRi8CMoKfmy8/FgKTOYaSWRapuPVeprxmPnBotxDqno5WywKBgQCMJoUNm8GnjbI3hbObUMoGLc/HMhcMoix8TFdn8eWBNLEuqn9aQYXSpxuQLj/m3HYp4GoP9Wqzw0QuO1iB0SBV3deVHByPjb74+Vjo4bBNf98V70YI6j5HscCFlGb3nZbFqPhy3Qnnwws1IIGRK/cPLkvCyOjgFQvFLIcocKT5/wKBgQCeuaNmDcM0eQ8avC584YCgbeK345XVSYND4M9oZEypHL+D4POsJ58PCHkfpenW2NxVn5GGKtL82x1FzDu97EQ/6KTBMw4WziD4sRluMnkqECQwvooVu0TM1IrUVSta2XSsIaxqZ3TUuVcM0QRhkLnGe04/GdLu1ErwegtHFF7khwKBgQCyQceUc5UTNUBqhfhgF3L3tSYwbaIB8fso/0yQIsUNaTG1qR1w2U87BUgN63tDKdduYof2quHzgZIuYmE5r0r+hIXSasTW5W2EDFyaVDjGMK6RMj6pk5ospl77MxhozycN0eXLIWbwRbPV0m/XjwX82QanVuRS3Ks27rhiveaGkg==",                                                                                                                                                                                                                                                                                                                                                                                                                                                                                                                                                                                                                                                                                                                                                                                                                                                                                                                                                                                                                                                                                                                                                                                                                                                                                                                                                                                                                                                                                                                                                                                                     // 2048 bits, e=3 (exponent of one octet)
+	"MIICXQIBAAKBgQDNrm7toP75F4vLYsCg1TNX9lY/w8QqwOIhcEpfoEiDH5OgkDQpByNJ+l1zx30xEMkurTAPmbD/JqyIYyvFbVJuSyr0bXl/no3/DpM+/50McUPfXdzLrxDbKf+vn/PrUIPiMqEZv9hDBXDOriEP0/vZziHqaYedY6tw8gfY8Y3XfQIEf////wKBgAXGY0D3h8geSQYkH72TULHFesrbUMQT2pH42mImBLpowqwP/x74kKX7uDNRWSmowxufJkLEcVsWkf6C9/ysHe8uAw2Tg1LeEJQaYYLpZ6rqiv1wfXrRkp8sj/pJmfThNy/gLVRHKL7GoEoep9Kr65dhEt1G8dF/D4dLwk2/5hcfAkEA23aGRpTdmubd4Wb7MkcD3ZHt4EiWL9nxoYk03BA1EyHsXH56djwUflouzK7ooe1nxn2If8RzEUgpW9FS/zpKOQJBAO/sigAQ/ZXJZYlPYf8zSBjA5WwPx0yN6s/vuSunhhnSEIOyZQYs3L9cUgU4NgaxV0UAfWwiiq6Bi7rEUH+/B2UCQHkT9XF7rZFbRAuWQTdWTokrZw80XgrVM9bc8nIT4ZRE3wiXj09Ldt8kOuXZpA3mvSu7FnlcDlSxRffRIyyu/qcCQFrDYyK/FwDsFcheLE3DhhhH6At1qn2W5wjB+xaZFajqdvB0pZsbt3WgcCmNvFvB/9Pa9JeNQZVCdWck9UVebhcCQQCraHf51SmWLGqWHoL/2d7UUKgebwUjYwQRt5whYRifWkEL8cCf7LV/jEjJleLAoIlkTvVRHnUKmxtmMjEDkXDV", // 1024 bits, e=2^31-1 (four octets, the largest exponent crypto/rsa and the library accept)
 	"MIIG4wIBAAKCAYEAxwub4xNLWlNfm5uIKBVDy4vxNIIWqIiGobjXAbmZpP4WgA7G93l/Bu2FVoYx0GJZRT/Uj1q7DHWvz9DzDfuQU8cy0Y1jdgxhiazfk80O9mw0b60DcY7IBl4Dgxm8SPbpdkZwq/BVB3nWk8LmIn7yvpkOISYqa0EVtefKe+Qe6PnEz+z6CIypUj97Z6zrfpHnjTYCwQRqCoXS4cpm9iK7QxQxEDhYUCjCQ1QBn+uXXOCbQ2zKoqKZumXIYDNnKkRL0m/3P4qYguW9zXLcwpeloYKfNVBRu6o8p2YK/FnRcKXn/JzqtP41AoicHCvReNva9wUUvnqj+9OcGFfI3d4X+iYDPAVrcxOEPvVoDYyuvkulOof2NNTTdd7h4cx9aLjujQ55K9u9kntjTIRuwTnnh4GY0j9+zMhVDF8xZyiiOL+JDT6ImhBz6KyOuQLNaIJzIEJCGv0kQPxW3d6z6jcneu5TMwcF5vJSXGJ2aWUBfEtQ1qKAuqiQLDf2DvK6SgVtAgMBAAECggGAAbdK58FB1AyF9Xx4xwev5vBU6wP4GAndR0WlrOEhvvdl0ELQWk/U1YV0sdNEWKyQYnVzaqz4kdnt4xfFEKjLjL1Z5c6XPexLZvlzj/2jlGJIbXILZo45kTx8QUQWiHaAesGOtRzETuUxAWMbws5fX19IbOa8VOJhwoi2CS1lStLkbHp5iVtVFl1vvewSt6ugWGpPycQ0+dQ/hizNiG+yN5jT93TU5hQD4Lq3rN5GFsnk7MbiVFachqvb92BaElY2YTaN67uMjOXX+0Eg7yiZM1z2xDDrrkPuniSyJkyVMd+C8HZg2hpXF4mKYo45p7Vc1/UxtU5lSk2hyiNVutDALflqby/Jzr3mOfAU1gmc1DOuccyPnSxsTB0SQL+p/57iZvnCMT1co1XlSTs2SmN6t++N5obRyFsqTnpM9JvN+lOx6i3+5x6XzeYzcnEkJ1RDUldYb0fnaFYkUpogifUXt9m1lq3f2EA4AQ+9WkPryBH/SfBMKj0p32nxQa8Wq1EtAoHBAMoWlZpc6QGhXRH49L2dGGdHpApwFeTFKmBYHlmOQoEJddjhPJPmUda8iYYWzu6i90UlTyRY6ePiBP0+dJ0xAjovY/r5NarcSYwvvwcv8eSZKu8UDuIjOJNbNZph0Qwpl7nRNLv26J5uot9ZfqeDIu7Gi4PmAChP2bbrN5+YOX6/FeBU0jNosvvVTY7E41eeDGXMWGBIz/yP1YmFqBNfnXUEtxnD0OkojrnnFC6lwf1lCDuAtesfHZfEiYza2RtkCwKBwQD8JTbsjhEr6AAtm1md4l/vZQ98k0PpMbKjzBeusmoHTiUf9uS8aytE4k9B+4p/yv1gTKqkgYNnuV02rnVCuVIi7AQFl1BGT0IFjKwkhDe5S8jqfMdF/YMUpCFCeGF4tHuW545K8R7x/uCJ8LR49/cnySwUeuI+jB4oUkAM/yb3xXAPgI556fC6/2xe/Nn+lFx8iX9rtkhguFOuw3XTYlV9Vid6A/00IYyu1OjMETzH8s7AeTFrtOTzr2HNmqosb2cCgcBxULCaWbadn2mchkhVeh0Q7G7jG25rVNMqKr754HcR+8gE0GczV1ZUXmuOsINf9ClKsFzsOJ8NlNLPXZHuAmkJT0F0nQCmydbDsJIg6ZVtZSVZ4Zlm2/EBT4eDBY4+j6PwIYq8Svqsu8TAEGKgczvHP7VDRFiaQgwGMWaDKswycdtGasli4jZaV4ShpW0E2C6Ddk2nz6wwJkbKUhOoqViVIQu6er5NvtwpCZWbgn6AI4K2OrnHGS9yxlWKkbxjS3kCgcEA0u2uzKTr6Hbj70MN7O36oyE/m072eJWCg1OwXAwUdpgApoS7RIPCZpWLB/+NFOqSm4SHG6bcbmC6gYvfvDmbZGtb0fGKzcZvzISpXMLeervTD5XifcJdbV8AE8LwhzE0UkDS4A5lfLtiywH5d1i4AShhH6DMstY0RDbKLhUkXBFmdRFuHr59C3GxDqUnF7i0xdmgJlMOqRqJpqEMaBDSw07XJ1M+9eU68uZY+J1S41FTc9/uX9Or087bWkwQH6vxAoHAQSqBj8BMBjYAowiiUw5B4fQqHCVS3MOVyZHYvDQ/4sJirU9WzJ6olI7we+BDR/0Hzs5oGi6gLe40qIr2Ybjw9cZ3/aBLG/AguHxDMj/jAH3J56JCxje3ENqIxhKA/Y8DWlQWdqJKdY00lOx/SD2erMZLs8+V9XDBtxN/XwL/Jg7miuocz9OuUe9WcYm/C51/7AtN6dEWQfcWZ2KMnfYJsv07QRtN5Glp5T/YRgWSnXbB59eWvMSdbhdfYJNHKOce", // 3072 bits, e=65537
 }
 
